@@ -21,7 +21,7 @@ run_demo() {
   if [ -n "$demo" ]; then
     cp "$demo" "$wt/zz_seed_demo_test.go"
     names=$(grep -oE '^func (Test[A-Za-z0-9_]+)' "$demo" | awk '{print $2}' | paste -sd'|')
-    timeout 600 go test -vet=off -count=1 -run "^($names)\$" . >"$wt-demo.log" 2>&1; rc=$?
+    timeout 600 go test ${DEMO_FLAGS:-} -vet=off -count=1 -run "^($names)\$" . >"$wt-demo.log" 2>&1; rc=$?
     rm -f "$wt/zz_seed_demo_test.go"
     return $rc
   elif [ -d "$out/demo$k" ]; then
